@@ -15,6 +15,8 @@ def make_case(rng, tier):
         c["state"] = [rng.choice([0.0, 0.4, 1.5, 3.0, 7.25, 20.0, 130.5]) for _ in range(n)]
         c["init"] = rng.choice(["auto", "redist", "Poisson", "none"]) if c["engine"] != "euler" else rng.choice(["auto", "none"])
     c["sched_seed"] = rng.randrange(2 ** 30)
+    if rng.random() < 0.25:
+        c["seed"] = rng.choice([0, 0, 1, 2 ** 31 - 1, 2 ** 32 - 1])       # edge values of the seed
     return c
 
 
@@ -64,6 +66,8 @@ def observe(c):
     runs = []
     # the same again on the same object; on another object of the same kind
     runs.append(["again", _drive(e1, script)[1], True])
+    # the same description built into a script a second time (the seed goes through the script's constructor again)
+    runs.append(["rebuilt_script", _drive(engine_build.engine(kind), trajgen.build_script(strengths, c))[1], True])
     e2 = engine_build.engine(kind)
     runs.append(["other_object", _drive(e2, script)[1], True])
     # after unrelated simulations of other kinds in the same process
